@@ -42,10 +42,13 @@ type Node struct {
 	Inc       int
 	deadInc   int
 	steadyInc int // incarnation whose sync loop has finished its start-up phase
-	cancel    context.CancelFunc
-	ctx       context.Context
-	Syncer    *syncer.Syncer
-	Running   bool
+	// graceful cancellation (C17)
+	cancelledInc int
+	cancelledAt  time.Duration
+	cancel       context.CancelFunc
+	ctx          context.Context
+	Syncer       *syncer.Syncer
+	Running      bool
 
 	mu           sync.Mutex
 	syncReturned map[int]bool
@@ -229,6 +232,8 @@ func (n *Node) Crash() {
 // tasks: this is a graceful stop; Sync is expected to return.
 func (n *Node) Cancel() {
 	if n.cancel != nil {
+		n.cancelledInc = n.Inc
+		n.cancelledAt = n.sim.Now()
 		n.cancel()
 	}
 }
